@@ -258,10 +258,13 @@ fn write_trace(id: &str, layout: &Layout, fault: usize, sleep: &[String], d: &Dr
   for (k, v) in extra.as_object().unwrap() { reset[k] = v.clone(); }
   writeln!(out, "{}", reset).unwrap();
   for l in &d.log { writeln!(out, "{}", l).unwrap(); }
+  // errhas: the text the loop returned contains the text of the first failure a driver call answered with (a fact about two strings, which
+  // TLC cannot take apart; "returns that error" does not forbid adding context to it)
+  let first_err: String = d.log.iter().find(|l| l["res"].as_str() == Some("err")).and_then(|l| l["err"].as_str()).unwrap_or("").to_string();
   let ret = match r {
-    Ok(Ok(())) => json!({"c": "ret", "ok": true, "err": "", "panic": false}),
-    Ok(Err(e)) => json!({"c": "ret", "ok": false, "err": e, "panic": false}),
-    Err(e) => json!({"c": "ret", "ok": false, "err": panic_msg(e), "panic": true})
+    Ok(Ok(())) => json!({"c": "ret", "ok": true, "err": "", "panic": false, "errhas": false}),
+    Ok(Err(e)) => json!({"c": "ret", "ok": false, "errhas": !first_err.is_empty() && e.contains(&first_err), "err": e, "panic": false}),
+    Err(e) => json!({"c": "ret", "ok": false, "err": panic_msg(e), "panic": true, "errhas": false})
   };
   writeln!(out, "{}", ret).unwrap();
 }
